@@ -23,7 +23,7 @@ Inductive tycase :=
 | TyBudget (b : budgetv Z) (shown : list (Z * str)) (impl : option str)
 | TyPost (s : str) (impl : option str)                                       (* post_process_whitespace *)
 | TyDebug (s : str) (impl : str)                                             (* format!("{:?}", s) *)
-| TyWsTable (std_ranges : list (N * N)).                                     (* char::is_whitespace of std *)
+| TyWsTable (std_ranges : list (N * N)).   (* char::is_whitespace of std; also: the escape table covers the whitespace *)
 
 Definition tres_eqb (r : tres) (impl : option str) : bool :=
   match r, impl with
@@ -45,7 +45,7 @@ Definition tycase_check (esc : list (N * N)) (c : tycase) : bool :=
   | TyBudget b shown impl => tres_eqb (typst_budget Z (shown_tab shown) b) impl
   | TyPost s impl => tres_eqb (post_process s) impl
   | TyDebug s impl => str_eqb (dbg s) impl
-  | TyWsTable r => ranges_eqb r ws_ranges
+  | TyWsTable r => ranges_eqb r ws_ranges && esc_covers_ws (rng_mem esc)
   end.
 
 Definition mismatches_typst (esc : list (N * N)) := mism (tycase_check esc) 0.
